@@ -320,7 +320,9 @@ func TestC20MakeSimple(t *testing.T) {
 			text = map[glyph.ID]string{}
 			for i := 0; i < n; i++ {
 				if rapid.Bool().Draw(t, "txt") {
-					text[glyph.ID(i)] = rapid.SampledFrom([]string{"A", "A", "B", "fi", "ﬁ", "é", "Ω", "x", "", "😀", "ab", strings.Repeat("W", 40)}).Draw(t, "text")
+					text[glyph.ID(i)] = rapid.SampledFrom([]string{"A", "A", "B", "fi", "ﬁ", "é", "Ω", "x", "", "😀", "ab", strings.Repeat("W", 40),
+						// names at and just below the 31-character limit, likely to collide
+						"abcdefghijklmn", "abcdefghijklmn", "abcdefghijklmno", "abcdefghijklmnop", "abcdefghijklmnop", "ЖЖЖЖЖЖЖ", "ЖЖЖЖЖЖ"}).Draw(t, "text")
 				}
 			}
 		}
